@@ -107,6 +107,7 @@ type HarnessResult struct {
 	Pkg          string
 	Paths        int
 	Killed       int
+	KillWhy      map[string]int // reason -> paths ended there (assume, infeasible, outside the encoding: ...)
 	Panics       int
 	Errors       []string
 	Steps        int64
@@ -240,6 +241,10 @@ func (e *Engine) Explore(fn *ssa.Function, unwind int) *HarnessResult {
 				switch pr.Status {
 				case "killed":
 					res.Killed++
+					if res.KillWhy == nil {
+						res.KillWhy = map[string]int{}
+					}
+					res.KillWhy[pr.Msg]++
 				case "panic":
 					res.Panics++
 				case "error":
